@@ -1014,8 +1014,8 @@ def delete_unused_functions_and_classes(
         member_names = {
             child.name
             for child in core.filter_nodes(node.body, (ast.FunctionDef, ast.AsyncFunctionDef))
-        }
-        # A preserved method needs its class
+        } | {target.id for target in parsing.iter_assignments(node)}
+        # A preserved method or attribute needs its class
         if node.name not in preserve and not member_names & set(preserve):
             classdefs.append(node)
 
